@@ -29,6 +29,15 @@ fn run_line(line: &str) -> String {
         "ctor_tags" => codec::cmd_ctor_tags(&mut t),
         "ctor_event" => codec::cmd_ctor_event(&mut t),
         "ctor_filter" => codec::cmd_ctor_filter(&mut t),
+        "evjson" => codec::cmd_evjson(&mut t),
+        "fljson" => codec::cmd_fljson(&mut t),
+        "tagsjson" => codec::cmd_tagsjson(&mut t),
+        "unescape" => codec::cmd_unescape(&mut t),
+        "escape" => codec::cmd_escape(&mut t),
+        "addr" => codec::cmd_addr(&mut t),
+        "kindclass" => codec::cmd_kindclass(&mut t),
+        "sign" => codec::cmd_sign(&mut t),
+        "verifyjson" => codec::cmd_verifyjson(&mut t),
         "hll_add" => codec::cmd_hll_add(&mut t),
         "hll_hex" => codec::cmd_hll_hex(&mut t),
         "hll_env" => codec::cmd_hll_env(&mut t),
